@@ -69,6 +69,13 @@ def m_fuse(e, st, fr, t, args):
     return VAgg(name='Fuse', fields={('f', 0): args[0]}, extra={'terminated': False})
 
 
+def m_wake_by_ref(e, st, fr, t, args):
+    """cx.waker().wake_by_ref() inside a poll: the task wakes itself, i.e. it stays runnable whatever it blocks on"""
+    st.meta['self_wake'] = True
+    st.event('self_wake')
+    return UNIT
+
+
 def m_poll_fn(e, st, fr, t, args):
     return VAgg(name='PollFn', fields={('f', 0): args[0]})
 
@@ -165,6 +172,9 @@ def poll_into(e, st, ref, cx, t, transforms=()):
         f2.bb = t.target
         return None
     if isinstance(fut, VAgg) and fut.name == 'Abortable':
+        fp = st.meta.get('fp')
+        if fp is not None:
+            st.meta['fp'] = fp | {(fut.extra['oid'], False)}     # reads the abort flag (partial-order reduction footprint)
         flag = st.objs[fut.extra['oid']].extra
         if flag['aborted']:
             pv = VAgg(name='Poll', vname='Ready', disc=0, fields={('v', 'Ready', 0): VAgg(name='Result', vname='Err', disc=1, fields={('v', 'Err', 0): VAgg(name='Aborted')})})
@@ -520,7 +530,9 @@ def install_common(eng: Engine):
     M.append((R(r' as FromResidual<.*>>::from_residual$'), m_from_residual))
     M.append((R(r' as FutureExt>::map::<'), m_map))
     M.append((R(r' as FutureExt>::fuse$'), m_fuse))
-    M.append((R(r'^futures::future::poll_fn::<'), m_poll_fn))
+    M.append((R(r'^((futures|std|core)::future::)?poll_fn::<'), m_poll_fn))
+    M.append((R(r'^(std::task::|core::task::)?Context::<.*>::waker$|^(std::task::|core::task::)?Context::waker$'), lambda e, st, fr, t, a: VAgg(name='WakerRef')))
+    M.append((R(r'^(std::task::|core::task::)?Waker::wake_by_ref$'), m_wake_by_ref))
     M.append((R(r' as FusedFuture>::is_terminated$'), m_is_terminated))
     M.append((R(r'^Poll::<.*>::map::<'), m_poll_map))
     M.append((R(r'futures_util::async_await::random::shuffle::<'), m_shuffle))
